@@ -1,3 +1,4 @@
+import ZCV.Lemmas.Misc
 import ZCV.Model.Conv
 namespace ZCV.Props.C01
 open ZCV ZCV.Cfg
@@ -12,5 +13,16 @@ theorem C01_isAllowedName_spec (si : SectInfo) (name : Option Str) :
   unfold isAllowedName
   by_cases h1 : name = some ['*'] <;> by_cases h2 : name = some ['+'] <;>
     by_cases h3 : si.name = ['+'] <;> by_cases h4 : si.name = ['*'] <;> simp_all
+
+
+/-- which child a key line goes to: the child declared with exactly this (normalised) key wins wherever it stands;
+    otherwise the wildcard (`+`) key; the search loop of `addValue` computes exactly this -/
+theorem C01_key_routing (children : List (Option Str × Info)) (rk : Str) :
+    addValueCore.search rk children none = route children rk := search_eq_route children rk
+
+/-- a key that is neither declared nor captured by a wildcard key is rejected with a configuration error -/
+theorem C01_unknown_key_rejected (m : Matcher) (key rk v : Str) (pos : Pos) (h : route m.ty.children rk = none) :
+    ∃ e, addValueCore m key rk v pos = .error (.cfg e) ∧ e.kind = .plain :=
+  addValueCore_unknown_rejected m key rk v pos h
 
 end ZCV.Props.C01
